@@ -271,8 +271,56 @@ static void run_exh(uint64_t idx, pv_rng* rng) {
     if (idx % 2500 == 1111) pv_sample("exhaustive", "[%s]", desc);
 }
 
+/* ---------------------------------------------------------------- (c) the public header as a caller's compiler sees it
+ * Queries and mutations are made by direct API calls inside ONE function of this (optimised) translation unit, on the
+ * same pointer value: whatever the declarations in polyseed.h promise to the optimiser (attributes, qualifiers) must be
+ * true, otherwise the second query is folded into the first one. */
+__attribute__((noinline)) static void direct_sequence(polyseed_data* s, const char* pw, int* e0, int* e1, unsigned* f0, unsigned* f1, uint64_t* b0, uint64_t* b1, uint8_t* img0, uint8_t* img1) {
+    *e0 = polyseed_is_encrypted(s); *f0 = polyseed_get_feature(s, 7); *b0 = polyseed_get_birthday(s); polyseed_store(s, img0);
+    polyseed_crypt(s, pw);
+    *e1 = polyseed_is_encrypted(s); *f1 = polyseed_get_feature(s, 7); *b1 = polyseed_get_birthday(s); polyseed_store(s, img1);
+}
+__attribute__((noinline)) static void direct_reuse(unsigned fa, unsigned fb, uint64_t ta, uint64_t tb, unsigned* qa, unsigned* qb, uint64_t* ba, uint64_t* bb, int* same_address) {
+    polyseed_data* s = NULL; *qa = *qb = 99; *ba = *bb = 0; *same_address = 0;
+    pv_w->time_value = ta;
+    if (polyseed_create(fa, &s) != POLYSEED_OK) return;
+    polyseed_data* first = s;
+    *qa = polyseed_get_feature(s, 7); *ba = polyseed_get_birthday(s);
+    polyseed_free(s);
+    pv_w->time_value = tb;
+    if (polyseed_create(fb, &s) != POLYSEED_OK) return;
+    *same_address = (s == first);
+    *qb = polyseed_get_feature(s, 7); *bb = polyseed_get_birthday(s);
+    polyseed_free(s);
+}
+static uint64_t n_direct(void) { return pv_scaled(3000, 100000); }
+static void run_direct(uint64_t idx, pv_rng* rng) {
+    reset_all();
+    pv_api_enable_features(7); M_mask = 7;
+    pv_mseed m; pv_gen_mseed(rng, 7, true, &m);
+    polyseed_data* s = pv_seed_from_model(&m);
+    if (!s) return;
+    int e0, e1; unsigned f0, f1; uint64_t b0, b1; uint8_t* i0 = malloc(32); uint8_t* i1 = malloc(32);
+    pv_world_begin("direct-sequence"); direct_sequence(s, "direct", &e0, &e1, &f0, &f1, &b0, &b1, i0, i1); pv_world_end();
+    PV_COUNT("evaluations", 1); PV_COUNT("direct.sequences", 1);
+    if (e0 != (int)((m.features >> 4) & 1) || e1 != !e0) vio("direct-calls", "stale-or-wrong-query", "is_encrypted before/after a direct polyseed_crypt call in the same function: %d then %d (seed features %u)", e0, e1, m.features);
+    if (f0 != (m.features & 7) || f1 != f0 || b0 != pv_m_birthday_time(m.birthday) || b1 != b0) vio("direct-calls", "stale-or-wrong-query", "get_feature %u/%u, get_birthday %llu/%llu around crypt (model features %u)", f0, f1, (unsigned long long)b0, (unsigned long long)b1, m.features & 7);
+    if (!memcmp(i0 + 10, i1 + 10, 19) && !(idx & 0)) { /* a mask of all zero is astronomically unlikely with the argument-mixing KDF */ vio("direct-calls", "store-folded", "polyseed_store output identical before and after crypt"); }
+    pv_api_free(s); free(i0); free(i1);
+    /* the same pointer VALUE holding two different seeds one after the other (address-reusing allocator) */
+    pv_w->reuse_mode = 1;
+    unsigned fa = pv_randn(rng, 8), fb = (fa + 1 + pv_randn(rng, 7)) & 7, qa, qb; uint64_t ba, bb; int same;
+    uint64_t ta = pv_m_birthday_time(pv_randn(rng, 1024)) + 3, tb = pv_m_birthday_time(pv_randn(rng, 1024)) + 3;
+    pv_world_begin("direct-reuse"); direct_reuse(fa, fb, ta, tb, &qa, &qb, &ba, &bb, &same); pv_world_end();
+    pv_w->reuse_mode = 0; if (pv_w->cache_ptr) { free(pv_w->cache_base); pv_w->cache_ptr = NULL; }
+    PV_COUNT("evaluations", 1); if (same) PV_COUNT("direct.same_address_two_seeds", 1);
+    if (qa != fa || qb != fb || ba != pv_m_birthday_time(pv_m_birthday_of(ta)) || bb != pv_m_birthday_time(pv_m_birthday_of(tb)))
+        vio("direct-calls", "stale-or-wrong-query", "two seeds created one after the other%s: features asked %u,%u got %u,%u; birthdays %llu,%llu", same ? " at the same address" : "", fa, fb, qa, qb, (unsigned long long)ba, (unsigned long long)bb);
+    else PV_DISTINCT("nontrivial", pv_mix(pv_mseed_hash(&m), idx ^ 0xd12ec7));
+}
+
 static void fini(void) { reset_all(); if (pv.scale_pct >= 100) pv_set_flag(pv.tier ? "exhaustive.all_sequences_up_to_length_5" : "exhaustive.all_sequences_up_to_length_4", true); }
 int main(int argc, char** argv) {
-    static const pv_section secs[] = { { "walks", n_walks, run_walks }, { "exhaustive", n_exh, run_exh } };
-    return pv_main(argc, argv, "C13", secs, 2, init, fini);
+    static const pv_section secs[] = { { "walks", n_walks, run_walks }, { "exhaustive", n_exh, run_exh }, { "direct", n_direct, run_direct } };
+    return pv_main(argc, argv, "C13", secs, 3, init, fini);
 }
